@@ -33,6 +33,7 @@ type knownFinding struct {
 	Kind       string // finding | fixed
 	Property   string
 	Obligation string
+	Only       string // optional regexp every hit of a static obligation must match for the listing to apply
 	Text       string
 }
 
@@ -65,12 +66,18 @@ func loadKnown(path string) []knownFinding {
 			if strings.HasPrefix(f, "obligation=") {
 				kf.Obligation = strings.TrimPrefix(f, "obligation=")
 			}
+			if strings.HasPrefix(f, "only=") {
+				kf.Only = strings.TrimPrefix(f, "only=")
+			}
 		}
 		kf.Text = line
 		out = append(out, kf)
 	}
 	return out
 }
+
+// the first segment of a footprint detail is a count ("12 prefixes written by module node"), not a hit
+var staticPreambleRe = regexp.MustCompile(`^\d+ prefixes written by module \w+$`)
 
 func oblServes(o *Obligation, prop string) bool {
 	if prop == "" {
@@ -313,10 +320,29 @@ func cmdCheck(args []string) int {
 		}
 	}
 	printedKnown := map[string]bool{}
-	matchKnown := func(name string) (knownFinding, bool) {
+	// A finding on a static (frame) obligation may carry only=<regexp>: the listing then covers the obligation only while
+	// every individual hit of the analysis matches the regexp; a hit that does not (another variable, another prefix) is a
+	// different violation of the same property and is reported.
+	matchKnown := func(name string, o *Obligation, detail string) (knownFinding, bool) {
 		for _, k := range knownList {
 			pat := "^" + strings.ReplaceAll(regexp.QuoteMeta(k.Obligation), `\*`, ".*") + "$"
 			if ok, _ := regexp.MatchString(pat, name); ok {
+				if k.Only != "" && o != nil && o.Static != "" {
+					re, err := regexp.Compile(k.Only)
+					all := err == nil
+					for _, h := range strings.Split(detail, "; ") {
+						h = strings.TrimSpace(h)
+						if h == "" || staticPreambleRe.MatchString(h) {
+							continue
+						}
+						if all && !re.MatchString(h) {
+							all = false
+						}
+					}
+					if !all {
+						continue
+					}
+				}
 				return k, true
 			}
 		}
@@ -342,7 +368,7 @@ func cmdCheck(args []string) int {
 			nProved++
 			bySolver[sliceSizeRe.ReplaceAllString(r.Solver, "")]++
 		default:
-			if kf, ok := matchKnown(r.Obl.Name); ok {
+			if kf, ok := matchKnown(r.Obl.Name, r.Obl, r.Output); ok {
 				nKnown++
 				if !printedKnown[kf.Text] {
 					printedKnown[kf.Text] = true
@@ -359,7 +385,16 @@ func cmdCheck(args []string) int {
 			if i := strings.LastIndex(base, "#"); i > 0 && strings.Count(base, "#") >= 2 && isDigits(base[i+1:]) {
 				base = base[:i]
 			}
+			// an obligation whose name is listed as a finding but whose hits go beyond the listing is a NEW violation: the
+			// registered replay demonstrates the listed finding, not this one, so it is not attached
+			newBeyondListing := r.Obl.Static != "" && v.isKnownFinding(r.Obl.Name)
+			if newBeyondListing {
+				suffix = " beyond-the-listed-finding" + suffix
+			}
 			for _, rr := range reg.Replays {
+				if newBeyondListing {
+					break
+				}
 				if rr.Obligation == r.Obl.Name || rr.Obligation == base || globMatch(rr.Obligation, r.Obl.Name) {
 					ok, out := runGoReplay(*verifDir, rr.Pkg, rr.File, rr.Run)
 					logp := strings.TrimSuffix(rp, ".json") + ".replay.log"
